@@ -810,7 +810,7 @@ class Exec:
                 if items and len(items) == 1:      # one of the crate's own constants (unambiguous by name): its value, not an opaque token
                     return s.crate_const(st, items[0])
             return v
-        if re.fullmatch(r'<\w+ as [\w:]+>::\w+', t):      # a function item used as a value (e.g. <T as Clone>::clone)
+        if re.fullmatch(r'<\w+ as [\w:]+>::\w+', t) or re.fullmatch(r'(?:core::|std::)?mem::drop::<\w+>', t):      # a function item used as a value (e.g. <T as Clone>::clone, mem::drop)
             return Opaque(t)
         raise NotImplementedError('operand ' + t)
 
@@ -1223,6 +1223,8 @@ class Exec:
             if len(fn.params) == 2 and len(args) == 1:
                 a = [cloref, args[0]]
             return s.run_fn(st, fn, a)
+        if isinstance(clo, Opaque) and re.fullmatch(r'(?:core::|std::)?mem::drop::<\w+>', clo.tag):
+            return s.call(st, clo.tag, list(args), where)      # `mem::drop` passed as a function value: the drop glue of its argument
         # opaque caller closure
         return s.extern_call(st, args, where, 'f')
 
@@ -1644,6 +1646,8 @@ class Exec:
             if len(fn.params) == 2 and len(args) == 2:
                 return s.run_fn(st, fn, [me, dict(enumerate(args))])
             return s.run_fn(st, fn, [me] + args)
+        if isinstance(clo, Opaque) and re.fullmatch(r'(?:core::|std::)?mem::drop::<\w+>', clo.tag):
+            return s.call(st, clo.tag, list(args), where)
         return s.extern_call(st, args, where, 'f')
 
     # ---------------------------------------------------------------- calls
@@ -2203,9 +2207,9 @@ class Exec:
             del s2.blocks[blk]
             s2.events[-1] = 'alloc -> null'
             return [(st, 'ret', BlockPtr(blk)), (s2, 'ret', NullPtr())]
-        if re.match(r'NonNull::<.*>::(new_unchecked|as_ptr|cast::<.*>)$', c) and isinstance(args[0], (BlockPtr, _Ptr)):
+        if (re.match(r'NonNull::<.*>::(new_unchecked|as_ptr|cast::<.*>)$', c) or re.match(r'<NonNull<.*> as From<&(mut )?.*>>::from$', c)) and isinstance(args[0], (BlockPtr, _Ptr)):
             return R(args[0])      # NonNull is a transparent wrapper around the raw pointer
-        if re.match(r'Box::<.*>::into_raw', c):
+        if re.match(r'Box::<.*>::(into_raw|leak)', c):      # leak: the same hand-over of the block to a plain pointer / reference
             b = args[0]
             if isinstance(b, BoxVal) and isinstance(b.ptr, BlockPtr) and b.ptr.block in st.blocks:
                 st.blocks[b.ptr.block] = 'allocated'      # owned by a raw pointer now: nobody frees it unless it is re-boxed
